@@ -18,7 +18,7 @@ func init() {
 			"R9.1 atomic-replace typestate: the store path (storeDir joined with the store file name) is never handed to a truncating writer (WriteFile, Create, OpenFile with write flags); it is only the destination of os.Rename whose source is a temp file created in the same directory, and on every path from the creation to the rename the marshalled data is written and the file closed, with the error of every fallible operation on the file (or on writers wrapping it) checked; " +
 			"R9.2 acknowledge after save: every return of UpdateTargets that can be nil is the (wrapped) result of the saver, every nil return of the saver passes the rename, and the HTTP handler answers success only under err = nil; " +
 			"R9.3 what is persisted: Marshal and Unmarshal operate on the manager's own TargetsInfo; its Targets and IdleAt fields and every field of target.Target are exported without a '-' tag; " +
-			"R9.4 Load registers the status/idle rebuild (UpdateTargets) before any return. " +
+			"R9.4 Load registers the status/idle rebuild (UpdateTargets) before any return; R9.5 nothing but the saver's temp file is ever removed, truncated or renamed away (the old-version store stays until it has been replaced). " +
 			"Not decided: byte-level content, file-system semantics beyond the atomicity of rename within a directory.",
 		Assumptions: []string{"go/types and go/ssa are correct", "os.Rename within one directory replaces the destination atomically", "errors.Wrap*(nil) = nil (reviewed in the pinned github.com/pkg/errors)"}})
 }
@@ -177,6 +177,33 @@ func runC09(p *engine.Prog, r *engine.Report) {
 		r.Add("R9.1-atomic-replace", "rename onto the store path", "pkg/sidecar", "the store is replaced by os.Rename(temp file in the store directory, store path)", "no such rename found", engine.Violated)
 	}
 	r.Add("R9.1-atomic-replace", "truncating sinks on the store path", "pkg/sidecar: WriteFile/Create/OpenFile call sites", "none receives the store path", fmt.Sprintf("%d found", nSink), engine.Discharged)
+
+	// ---- R9.5: nothing but the saver's own temp file is ever removed or renamed away in pkg/sidecar
+	{
+		var probs []string
+		n := 0
+		for _, fn := range side {
+			fi := p.Info(fn)
+			for _, in := range allInstrs(fn) {
+				ci, ok := in.(ssa.CallInstruction)
+				if !ok {
+					continue
+				}
+				c := ci.Common()
+				isRm := engine.CalleeIs(c, "os", "", "Remove") || engine.CalleeIs(c, "os", "", "RemoveAll") || engine.CalleeIs(c, "os", "", "Truncate")
+				isMv := engine.CalleeIs(c, "os", "", "Rename")
+				if !isRm && !isMv {
+					continue
+				}
+				n++
+				src := fi.T(c.Args[0]).S
+				if !strings.HasPrefix(src, "call (*os.File).Name(call io/ioutil.TempFile(") && !strings.HasPrefix(src, "call (*os.File).Name(call os.CreateTemp(") {
+					probs = append(probs, engine.CalleeObj(c).FullName()+" on "+short(src)+" at "+p.Rel(ci.Pos())+" (a persisted assignment must not be deleted or moved away; only the saver's temp file may)")
+				}
+			}
+		}
+		r.Check(len(probs) == 0, "R9.5-no-store-removal", "removals and renames in pkg/sidecar", fmt.Sprintf("%d os.Remove/Rename/Truncate call sites", n), "only the temp file created by the saver is removed or renamed", strings.Join(probs, "; "))
+	}
 
 	// ---- R9.2
 	isSaver := func(f *ssa.Function) bool {
